@@ -3,6 +3,7 @@ package rules
 import (
 	"fmt"
 	"go/token"
+	"go/types"
 	"sort"
 	"strings"
 
@@ -277,6 +278,40 @@ func runC05(p *core.Prog, r *core.Report) {
 	r7 := r.Rule("C05.R7", "in package signed256 a value produced by a strconv parser is used only on the path where that parser returned no error (the parser of query bounds must not keep the clamped value of an out-of-range 20-digit number)", 1)
 	parsedValueOnlyAfterErrCheck(p, r, r7)
 	r.Explain += " (R7) in package signed256 the value of a strconv parser is used only behind its err == nil test: strconv returns the clamped maximum together with a range error, and the two parsers of the package (stored values / query bounds) must give one number for one digit string."
+	// ---------------- R8 no wrapping word arithmetic on a magnitude
+	r8 := r.Rule("C05.R8", "package signed256 builds no number with native-width multiplication or shifting of non-constant operands (such arithmetic wraps silently and the usual n < v test does not detect every overflow of v*10+d): magnitudes are made by uint256 and strconv only, so every reader gives the same integer for the same digits", 8)
+	nScanned := 0
+	for _, fn := range p.FuncsIn("internal/signed256") {
+		nScanned++
+		bad := false
+		for _, b := range fn.Blocks {
+			for _, in := range b.Instrs {
+				bo, ok := in.(*ssa.BinOp)
+				if !ok || bo.Op != token.MUL && bo.Op != token.SHL {
+					continue
+				}
+				if bt, isB := bo.Type().Underlying().(*types.Basic); !isB || bt.Info()&types.IsInteger == 0 {
+					continue
+				}
+				_, cx := bo.X.(*ssa.Const)
+				_, cy := bo.Y.(*ssa.Const)
+				if cx && cy || bo.Op == token.SHL && cx {
+					continue
+				}
+				if bo.Op == token.MUL && !cx && !cy {
+					// index arithmetic of two variables does not occur in this package either
+				}
+				bad = true
+				r8.Bad(core.FuncName(fn)+"#native-"+bo.Op.String(), p.InstrPos(bo), "a word-sized "+bo.Op.String()+" of a non-constant operand in signed256: the product wraps modulo 2^64 without a sound overflow test, so a 20-digit value above the word range can be taken for a small number by one reader and not by the other")
+			}
+		}
+		if !bad {
+			r8.OK(core.FuncName(fn)+"#no-native-mul", p.Pos(fn.Pos()), "no native multiplication / shift of a non-constant operand")
+		}
+	}
+	if nScanned == 0 {
+		r.Fatalf("C05.R8: package internal/signed256 not loaded")
+	}
 	// ---------------- R5 Cmp shape
 	r5 := r.Rule("C05.R5", "Cmp: different signs decide the order (negative first); equal signs compare magnitudes, reversed for negatives", 3)
 	if cmp := p.Func("(*" + s256 + "Int).Cmp"); cmp == nil {
